@@ -1,4 +1,200 @@
-import UvModel.StreamW
-/-! C05: property theorems (placeholder while the correspondence is being set up) -/
+import UvModel.Lemmas.StreamWLemmas
+/-!
+  C05 — stream writes: property theorems over the model `UvModel.StreamW`.
+
+  `Reach s`: `s` is the state after an arbitrary list of loop-level operations (API calls, more
+  scripted syscall outcomes, uv__run_pending, POLLOUT from uv__io_poll, the closing endgame) from a
+  freshly opened stream of any configuration, under an arbitrary callback script (the k-th callback
+  performs any list of API calls) and an arbitrary schedule of write/writev/sendmsg outcomes.
+  All theorems are consequences of the invariant `WF` (Lemmas/StreamWLemmas.lean), proved by
+  induction over the op list; `WF` also holds at every point inside uv__write_callbacks where a
+  user callback runs (`cbOne_wf`), which is what the `obsBad`/`shutCbEarly` ghosts record.
+-/
 namespace UvModel.StreamW
+
+def Reach (s : S) : Prop :=
+  ∃ (sc : Script) (ipc : Bool) (shutErr connErr : Int) (connecting pollout pending : Bool)
+    (env : List Outcome) (ops : List LOp),
+    s = runOps sc (initS ipc shutErr connErr connecting pollout pending env) ops
+
+theorem reach_inv {s : S} (h : Reach s) : WF s ∧ s.pq = [] := by
+  obtain ⟨sc, ipc, se, ce, cn, po, pe, env, ops, rfl⟩ := h
+  exact runOps_inv sc ops _ (init_inv ipc se ce cn po pe env)
+
+/-- `write_queue_size` is exactly the number of unsent bytes of the requests whose callback has not
+    run, for every op sequence / script / outcome schedule — including the size touch-up of failed
+    and cancelled requests — and every observation made by any API call (also from inside a
+    callback, where the requests still waiting in `pq` count) saw that value (`obsBad` never set). -/
+theorem wqs_exact {s : S} (h : Reach s) :
+    s.wqs = ((unsent (s.cq ++ s.wq) : Nat) : Int) ∧ s.obsBad = false := by
+  obtain ⟨w, hp⟩ := reach_inv h
+  have := w.wqs_eq
+  rw [hp] at this
+  exact ⟨by simpa using this, w.mon_ok.1⟩
+
+/-- the same inside callbacks: any state satisfying the invariant (in particular the state in
+    which a write callback runs) has the exact size, counting the not yet called-back `pq` -/
+theorem wqs_exact_in_callbacks (sc : Script) (s : S) (r : Req) (rest : List Req) (h : WF s)
+    (hp : s.pq = r :: rest) :
+    let s' := cbOne sc r { s with pq := rest }
+    s'.wqs = ((unsent (s'.pq ++ s'.cq ++ s'.wq) : Nat) : Int) :=
+  (cbOne_wf sc s r rest h hp).1.wqs_eq
+
+/-- every accepted request is, at any time, in exactly one place — already called back, or still
+    in a queue — in submission order; ids are strictly increasing, hence: at most one callback per
+    request, callbacks in submission order. -/
+theorem cb_once_in_order {s : S} (h : Reach s) :
+    s.accepted = s.cbs.map (·.id) ++ (s.cq ++ s.wq).map (·.id) ∧
+    s.accepted.Pairwise (· < ·) ∧ (s.cbs.map (·.id)).Pairwise (· < ·) ∧
+    (s.cbs.map (·.id)) <+: s.accepted := by
+  obtain ⟨w, hp⟩ := reach_inv h
+  have e := w.acc_eq
+  rw [hp] at e
+  simp only [List.nil_append] at e
+  refine ⟨e, w.acc_lt.1, ?_, ?_⟩
+  · have := w.acc_lt.1
+    rw [e] at this
+    exact (List.pairwise_append.1 this).1
+  · exact ⟨_, e.symm⟩
+
+/-- exactly once: when nothing is queued any more (in particular after close, see `close_cancels`)
+    the callbacks are exactly the accepted requests, in order -/
+theorem cb_exactly_once_when_drained {s : S} (h : Reach s) (hq : s.wq = []) (hc : s.cq = []) :
+    s.cbs.map (·.id) = s.accepted := by
+  have := (cb_once_in_order h).1
+  rw [hq, hc] at this
+  simpa using this.symm
+
+/-- status 0 only if all bytes of the request were accepted by the OS (`sent = total`).
+    (The converse is false in the code and in the model: a request whose last buffers are empty can
+    fail / be cancelled after all its bytes were accepted.) -/
+theorem status_zero_imp_all_accepted {s : S} (h : Reach s) :
+    ∀ c ∈ s.cbs, c.status = 0 → c.sent = c.total :=
+  (reach_inv h).1.cbs_ok
+
+/-- as long as no write syscall failed hard and the connect did not fail, the bytes accepted by
+    the OS are a prefix of the bytes submitted by successful uv_write/uv_try_write calls, in call
+    order (no loss, duplication or reordering however the OS splits, delays or interrupts writes) -/
+theorem os_stream_is_prefix {s : S} (h : Reach s) (hh : s.hardErr = false) :
+    s.os <+: s.submitted := by
+  rcases (reach_inv h).1.os_ok with e | ⟨rest, e, _⟩
+  · rw [hh] at e; cases e
+  · exact ⟨rest, e.symm⟩
+
+/-- what is still missing is exactly the unsent part of the queued requests, in order; so the OS
+    stream is the whole submitted stream once the write queue is empty (every callback reported 0) -/
+theorem os_stream_missing_part {s : S} (h : Reach s) (hh : s.hardErr = false) (hc : s.closing = false) :
+    s.submitted = s.os ++ pend s.wq := by
+  rcases (reach_inv h).1.os_ok with e | ⟨rest, e, e2⟩
+  · rw [hh] at e; cases e
+  · rw [e, e2 hc]
+
+theorem os_stream_complete {s : S} (h : Reach s) (hh : s.hardErr = false) (hc : s.closing = false)
+    (hq : s.wq = []) : s.os = s.submitted := by
+  have := os_stream_missing_part h hh hc
+  rw [hq] at this
+  simpa using this.symm
+
+/-- uv_try_write never overtakes queued data: with unsent bytes of not-yet-called-back requests
+    (or while connecting) it returns UV_EAGAIN, makes no syscall and changes nothing
+    (stated for every state satisfying the invariant, i.e. also inside callbacks) -/
+theorem try_write_never_overtakes (s : S) (bufs : List Nat) (send : Bool) (h : WF s)
+    (hq : unsent (s.pq ++ s.cq ++ s.wq) ≠ 0 ∨ s.connecting = true) :
+    tryWrite2 s bufs send = ({ s with nextId := s.nextId + 1 }, UV_EAGAIN) := by
+  have hw := h.wqs_eq
+  unfold tryWrite2
+  simp only []
+  rw [if_pos]
+  rcases hq with hq | hq
+  · right; show s.wqs ≠ 0; omega
+  · left; exact hq
+
+theorem try_write_never_overtakes_reach {s : S} (h : Reach s) (bufs : List Nat) (send : Bool)
+    (hq : unsent (s.cq ++ s.wq) ≠ 0 ∨ s.connecting = true) :
+    tryWrite2 s bufs send = ({ s with nextId := s.nextId + 1 }, UV_EAGAIN) := by
+  obtain ⟨w, hp⟩ := reach_inv h
+  apply try_write_never_overtakes s bufs send w
+  rw [hp]; simpa using hq
+
+/-- shutdown comes last: (1) when the shutdown callback ran, every accepted write had already been
+    called back (`shutCbEarly` = ids still owed at that moment); (2) shutdown(2) was issued with an
+    empty write queue; (3) after shutdown(2) succeeded the OS stream never grew again (the peer
+    sees EOF after the last byte) and the queue stays empty; (4) once uv_shutdown returned 0 every
+    uv_write2 returns UV_EPIPE (UV_EBADF after close) and changes nothing but the call counter. -/
+theorem shutdown_after_writes {s : S} (h : Reach s) :
+    s.shutCbEarly = [] ∧ s.shutSysPending = [] ∧
+    (s.shut = true → s.osAtShut = some s.os ∧ s.wq = []) ∧
+    (s.shutdownCalled = true → ∀ bufs send,
+      write2 s bufs send = ({ s with nextId := s.nextId + 1 }, if s.fdOpen then UV_EPIPE else UV_EBADF)) := by
+  obtain ⟨w, _⟩ := reach_inv h
+  refine ⟨w.mon_ok.2.1, w.mon_ok.2.2.1, fun hs => ⟨(w.shut_ok hs).1, (w.shut_ok hs).2.1⟩, ?_⟩
+  intro hc bufs send
+  have hw := w.called_ok hc
+  unfold write2
+  cases hf : s.fdOpen <;> simp [checkBeforeWrite, hw, UV_EBADF, UV_EPIPE]
+
+/-- the descriptor of uv_write2/uv_try_write2 rides only on the first successful syscall of its
+    request (`fdSent` logs (request, number of earlier successful syscalls) per descriptor sent) -/
+theorem send_handle_once {s : S} (h : Reach s) : ∀ p ∈ s.fdSent, p.2 = 0 :=
+  (reach_inv h).1.mon_ok.2.2.2
+
+/-- close cancels: the endgame of a closing stream calls back every request still owed exactly
+    once — those already completed keep their status, those still queued get UV_ECANCELED — in
+    order, and afterwards nothing is queued and callbacks = accepted requests. -/
+theorem close_cancels (sc : Script) {s : S} (h : Reach s) (hc : s.closing = true) :
+    (destroy sc s).cbs = s.cbs ++
+      (s.cq ++ s.wq.map (fun r : Req => { r with error := UV_ECANCELED })).map cbRec ∧
+    (destroy sc s).wq = [] ∧ (destroy sc s).cq = [] ∧
+    (destroy sc s).cbs.map (·.id) = (destroy sc s).accepted := by
+  obtain ⟨w, hp⟩ := reach_inv h
+  obtain ⟨i, _, q1, q2, q3⟩ := destroy_inv sc s w hp hc
+  refine ⟨q3, q1, q2, ?_⟩
+  have e := i.1.acc_eq
+  rw [i.2, q1, q2] at e
+  simpa using e.symm
+
+theorem closed_all_called_back {s : S} (h : Reach s) (hc : s.closed = true) :
+    s.wq = [] ∧ s.cq = [] ∧ s.cbs.map (·.id) = s.accepted := by
+  obtain ⟨w, _⟩ := reach_inv h
+  obtain ⟨_, q1, q2⟩ := w.closed_ok hc
+  exact ⟨q1, q2, cb_exactly_once_when_drained h q1 q2⟩
+
+/-! ### non-vacuity: concrete runs -/
+
+/-- partial write, EAGAIN, EINTR, a write and a shutdown issued from inside the first callback
+    (the reproducer of the callback-order defect repaired in stream.c 1234-1241), close at the end -/
+def demoScript : Script := fun k => if k = 0 then [.write [2, 2] false, .shutdown] else []
+def demoOps : List LOp :=
+  [.feed [.ok 2, .fail 11, .fail 4, .ok 100], .api (.write [3, 0, 5] false), .api (.tryWrite [1] false)] ++
+  loopIter ++ loopIter ++ loopIter ++ [.api .close] ++ loopIter
+def demo : S := runOps demoScript (initS false 0 0 false false false []) demoOps
+
+theorem demo_reach : Reach demo := ⟨demoScript, false, 0, 0, false, false, false, [], demoOps, rfl⟩
+
+set_option maxRecDepth 100000 in
+example : demo.cbs.map (fun c => (c.id, c.status)) = [(0, 0), (2, 0)] := by decide
+set_option maxRecDepth 100000 in
+example : demo.os = demo.submitted ∧ demo.os.length = 12 := by decide
+set_option maxRecDepth 100000 in
+example : demo.hardErr = false ∧ demo.shut = true ∧ demo.closed = true := by decide
+/-- order of callbacks in the trace: write 0, write 2 (submitted inside cb 0), then shutdown -/
+set_option maxRecDepth 100000 in
+example : (demo.trace.reverse.filter fun e => match e with
+    | .cb _ _ => true | .shutcb _ => true | _ => false) = [.cb 0 0, .cb 2 0, .shutcb 0] := by decide
+/-- the try_write in between was refused -/
+set_option maxRecDepth 100000 in
+example : Ev.ret UV_EAGAIN ∈ demo.trace := by decide
+
+/-- a hard error: request 0 fails after 1 byte, request 1 is cancelled by close; size touched up -/
+def demo2 : S := runOps (fun _ => []) (initS true 0 0 false false false [.ok 1, .fail 32, .fail 11, .fail 11, .fail 11])
+  ([.api (.write [3] true), .api (.write [2] false)] ++ loopIter ++ [.api .close] ++ loopIter)
+set_option maxRecDepth 100000 in
+example : demo2.cbs = [⟨0, -32, 1, 3⟩, ⟨1, UV_ECANCELED, 0, 2⟩] ∧ demo2.wqs = 0 ∧
+    demo2.fdSent = [(0, 0)] ∧ demo2.hardErr = true := by decide
+
+/-- zero-length requests do not block uv_try_write (no queued *data*): documented behaviour -/
+set_option maxRecDepth 100000 in
+example : (tryWrite2 (runOps (fun _ => []) (initS false 0 0 false false false [.fail 11, .ok 9])
+    [.api (.write [0] false)]) [2] false).2 = 2 := by decide
+
 end UvModel.StreamW
